@@ -112,7 +112,7 @@ impl Prop for P {
         )
             .prop_flat_map(move |(ci, crossover, commit_mode, retention)| {
                 let (fmt, ty) = MATRIX[ci];
-                let mix = OpMix { raw_ops: fmt.is_raw(), rollback_ops: commit_mode, plain_writes: !commit_mode, reimport: true, reset: !commit_mode };
+                let mix = OpMix { raw_ops: fmt.is_raw(), rollback_ops: commit_mode, plain_writes: !commit_mode, reimport: true, reset: true };
                 let rop = prop_oneof![
                     3 => vop_strategy(mix).prop_map(ROp::Plain),
                     1 => read_req().prop_map(ROp::Read),
